@@ -22,7 +22,7 @@ KNOWN = os.path.join(VERIF, "KNOWN_FINDINGS.txt")
 NPROC = os.cpu_count() or 4
 
 ENV = dict(os.environ)
-ENV.update({"CARGO_NET_OFFLINE": "true", "LC_ALL": "C"})
+ENV.update({"CARGO_NET_OFFLINE": "true", "LC_ALL": "C", "RB_REPO": REPO})
 
 ALLOWED_AXIOMS = set()  # none: every Props theorem must be closed under the global context
 
@@ -307,7 +307,20 @@ def nlist(xs):
 def cargo_build(profile="release", hooks=True, timeout=1500):
     """Build the harness against /repo's working tree. Returns (ok, binary path, log)."""
     tdir = os.path.join(BUILD, "cargo-hook" if hooks else "cargo-api")
-    env = {"CARGO_TARGET_DIR": tdir}
+    hdir = HARNESS
+    if REPO != "/repo":
+        # testing aid (seeded changes evaluated in a scratch worktree): same harness sources, path
+        # dependency redirected to RB_REPO, separate target directory
+        hdir = os.path.join(BUILD, "harness-alt")
+        os.makedirs(hdir, exist_ok=True)
+        toml = open(os.path.join(HARNESS, "Cargo.toml")).read().replace('path = "/repo"', 'path = "%s"' % REPO)
+        write_if_changed(os.path.join(hdir, "Cargo.toml"), toml)
+        for name in ("src", ".cargo", "Cargo.lock"):
+            dst = os.path.join(hdir, name)
+            if not os.path.lexists(dst):
+                os.symlink(os.path.join(HARNESS, name), dst)
+        tdir = os.path.join(BUILD, "cargo-alt-hook" if hooks else "cargo-alt-api")
+    env = {"CARGO_TARGET_DIR": tdir, "RB_REPO": REPO}
     if hooks:
         env["RUSTFLAGS"] = "--cfg rustybuzz_verif"
     lock = os.path.join(HARNESS, "Cargo.lock")
@@ -320,7 +333,7 @@ def cargo_build(profile="release", hooks=True, timeout=1500):
     else:
         cmd += ["--profile", profile]
     with Lock("cargo-" + ("hook" if hooks else "api")):
-        rc, out, err = sh(cmd, cwd=HARNESS, env=env, timeout=timeout)
+        rc, out, err = sh(cmd, cwd=hdir, env=env, timeout=timeout)
     binp = os.path.join(tdir, profile, "rbv")
     return rc == 0, binp, out + err
 
